@@ -124,17 +124,16 @@ def request_ok(h, w, s):
 
 Contract("workload.strategy.ExecutionStrategy.__hash__", inline=True, props=P04)
 
+def worker_fits(h, w, s):
+    """a worker accepts a strategy iff its free resources cover the request, or the strategy is a batch already open on it"""
+    return z3.Or(fits(h, wres(h, w), h, sres(h, s)), z3.And(is_batch(h, s), h.d_dom(PB, wpb(h, w), s)))
+
+
 Contract(
     "workers.workers.Worker.can_accomodate_strategy",
     params={"self": S_.Worker.ty, "strategy": S_.STRAT},
     ret=T.BOOL,
-    ensures=lambda c: {
-        "can_accomodate.iff": c.res
-        == z3.Or(
-            fits(c.pre, wres(c.pre, c.arg("self")), c.pre, sres(c.pre, c.arg("strategy"))),
-            z3.And(is_batch(c.pre, c.arg("strategy")), c.pre.d_dom(PB, wpb(c.pre, c.arg("self")), c.arg("strategy"))),
-        )
-    },
+    ensures=lambda c: {"can_accomodate.iff": c.res == worker_fits(c.pre, c.arg("self"), c.arg("strategy"))},
     props=P04 + ("C13", "C10"),
 )
 
